@@ -333,7 +333,7 @@ def scripts(draw, profile="c03", ranks=None, stats=None):
             k = tiles[I(0, len(tiles) - 1)]
             r = I(0, 999)
             pr = int(pf["p_read"] * 1000)
-            m = 1 if r < pr else (2 if r < pr + (1000 - pr) // 2 else 3)
+            m = 1 if r < pr else (2 if (r < pr + (1000 - pr) // 2 and not pf.get("no_output")) else 3)
             flows.append([k, m, 0])
         # same tile in several parameters: keep only the supported multiplicities R..R, R..R W, W R
         want_multi = chance(0.25)
